@@ -470,11 +470,47 @@ class Ctx:
             a = ax[i] if i < len(ax) else ["?"]
             self.obligations.append((t, True, a))
             self.axioms.update(a)
+        if self.thorough and os.environ.get("VERIF_COQCHK", "1") != "0":
+            self.coqchk(props_file)
         prim = [a for a in self.axioms if a.split(".")[0] in ("PrimFloat", "PrimInt63", "FloatAxioms", "Uint63")]
         other = sorted(set(self.axioms) - set(prim))
         self.log(f"{props_file}: {len(printed)} theorems checked; axioms: {other or 'none (closed under the global context)'}"
                  + (f" + {len(prim)} primitive int/float operations and their specifications (used by the interval tactic)" if prim else ""))
         return True
+
+    def coqchk(self, props_file, timeout=1500):
+        """Thorough tier: re-check the compiled Props file and everything it depends on with the independent checker
+        coqchk and record the axioms it reports (`coqchk -o`).  A rejection is a broken proof obligation; running out of
+        time is recorded as such and is not a failure (the kernel's own check by coqc has already passed)."""
+        mod = "Typhon." + props_file[:-2].replace("/", ".")
+        t0 = time.time()
+        try:
+            r = subprocess.run(["timeout", str(timeout), "coqchk", "-silent", "-o", *COQ_ARGS, mod],
+                               capture_output=True, text=True, cwd=str(COQ))
+        except Exception as e:  # noqa
+            self.notes.append(f"coqchk {mod}: not run ({e})")
+            return
+        out = r.stdout + r.stderr
+        if r.returncode == 124:
+            self.obligations.append((f"coqchk {mod}", True, f"timed out after {timeout}s (not a failure; coqc accepted the file)"))
+            return
+        if r.returncode != 0:
+            self.obligations.append((f"coqchk {mod}", False, out[-800:]))
+            self.failures.append(Failure("proof", f"coqchk rejects {mod}: {out[-600:]}", obligation=f"coqchk {mod}",
+                                         signature="coqchk"))
+            return
+        m = re.search(r"\* Axioms:(.*?)\n\s*\n\* Constants/Inductives relying on type-in-type:(.*?)\n\s*\n\* Constants/Inductives relying on unsafe"
+                      r".*?:(.*?)\n\s*\n\* Inductives whose positivity is assumed:(.*?)\n", out, re.S)
+        axioms = []
+        bad = ""
+        if m:
+            axioms = [a.strip() for a in m.group(1).split("\n") if a.strip() and a.strip() != "<none>"]
+            bad = " ".join(x.strip() for x in m.groups()[1:] if x.strip() != "<none>")
+        if bad:
+            self.failures.append(Failure("gate", f"coqchk reports disabled checks in {mod}: {bad}", obligation=f"coqchk {mod}",
+                                         signature="coqchk-unsafe"))
+        self.obligations.append((f"coqchk {mod}", not bad, {"wall_s": round(time.time() - t0, 1), "axioms_of_all_loaded_libraries": axioms}))
+        self.log(f"coqchk {mod}: ok in {time.time()-t0:.0f}s, {len(axioms)} axioms in the loaded libraries")
 
     def add_obligation(self, name, ok, note=""):
         self.obligations.append((name, bool(ok), note))
